@@ -889,7 +889,7 @@ def run(ck):
       uid[0] += 1
       cs.append(f(uid[0]))
     process(ck, cs, nvec)
-  rounds = 22 if quick else 75
+  rounds = 19 if quick else 70
   per = 110 if quick else 300
   for _ in range(rounds):
     batch(per, lambda u: G.gen_typed(rng, u, 0.0, 'typed'))
@@ -905,10 +905,10 @@ def run(ck):
     for _ in range(5 if quick else 14):
       uid[0] += 1; mc.append(G.gen_multi(rng, uid[0]))
     process_multi(ck, mc, nvec)
-    nsrc = (10, 3, 2, 8) if quick else (30, 8, 6, 24)
+    nsrc = (10, 3, 2, 8, 5) if quick else (30, 8, 6, 24, 14)
     src_cases = []
     for n, f in zip(nsrc, (lambda u: ST.gen_struct(rng, u), lambda u: ST.gen_lut(rng, u, 'N6'), lambda u: ST.gen_lut(rng, u, 'lutctl'),
-                           lambda u: ST.gen_intlut(rng, u))):
+                           lambda u: ST.gen_intlut(rng, u), lambda u: ST.gen_matstruct(rng, u))):
       for _ in range(n):
         uid[0] += 1; src_cases.append(f(uid[0]))
     for which in ('N7', 'N8'):
